@@ -275,7 +275,9 @@ func cowRunImpl(c corr.Case) []string {
 				note += " #BASE-MODIFIED"
 			}
 			want := expectedView(st.base, st.layer)
-			if strings.HasPrefix(res, "h=") && len(t) > 1 {
+			// the listing oracle follows handles opened for reading; opening a directory for writing confuses
+			// files and directories (EISDIR on a real file system) and promises no listing
+			if strings.HasPrefix(res, "h=") && len(t) > 1 && (t[0] == "open" || t[0] == "openfile" && atoi(t[2])&(1|2|0x40|0x200|0x400) == 0) {
 				handlePath[len(r.H)-1] = filepath.Clean("/" + string(corr.UnHex(t[1])))
 			}
 			isErr := strings.HasPrefix(res, "err:")
@@ -448,6 +450,18 @@ func cowExhaustive(tier string) []corr.Case {
 					l = append(l, fmt.Sprintf("openfile %s %d 420", h("/d/f"), fl))
 					l = append(l, c07HandleOps(nh)...)
 					l = append(l, "stat "+h("/d/f"), "snapshot")
+					cases = append(cases, corr.Case{Lines: l})
+				}
+				// every flag × a directory target (a directory is never copied up, and opening it must not touch the base)
+				dflags := []int{0, 1, 2, 0x42, 0x242, 0x202, 0x201, 0x401, 0x441, 0xc2, 0x200, 0x400}
+				if st == "cow-mem" || tier == "thorough" {
+					dflags = flags
+				}
+				for _, fl := range dflags {
+					l := append([]string{"case " + st}, setup...)
+					l = append(l, fmt.Sprintf("openfile %s %d 420", h("/d/s"), fl))
+					l = append(l, c07HandleOps(nh)...)
+					l = append(l, "stat "+h("/d/s"), "snapshot")
 					cases = append(cases, corr.Case{Lines: l})
 				}
 				// every Fs method on file and directory targets
